@@ -441,7 +441,7 @@ func init() {
 	register(ruleSelect, ruleLast, ruleTrunc, ruleMethodTypes)
 	addProp(&PropSpec{
 		ID:          "C14",
-		Rules:       []string{"R-SELECT", "R-LAST", "R-TRUNC", "R-F2I", "R-STATE", "R-MODEGUARD", "R-LAUNDER", "R-LISTINDEX", "R-SUBEVAL"},
+		Rules:       []string{"R-SELECT", "R-LAST", "R-TRUNC", "R-F2I", "R-STATE", "R-MODEGUARD", "R-LAUNDER", "R-LISTINDEX", "R-SUBEVAL", "R-LITCHAIN"},
 		Explanation: "Selection by position as shapes of the subscript executor: the element loaded at array[i] reaches the continuation with no branch on its value; `last` is the recorded length minus one of the innermost subscripted array (recorded before the subscripts are evaluated, restored on every exit); subscript values are truncated, finiteness-checked and range-checked against int32; the out-of-bounds error is guarded by strictness; a failed subscript expression is never mistaken for index 0.",
 		Decided: []string{"R-SELECT: no value-dependent branch between array[i] and the continuation", "R-LAST: `last` = recorded size − 1; hard error outside a subscript",
 			"R-TRUNC + R-F2I: truncating conversion after a NaN/Inf check, int32 range test on the result", "R-STATE: innermost size restored on every exit",
@@ -520,3 +520,114 @@ func (p *Prog) appliesNilNode(c *ssa.Call) bool {
 	}
 	return n > 0
 }
+
+// --- R-LITCHAIN: a literal's value is never used without its accessor chain -------------------------
+
+var ruleLitChain = &Rule{
+	Name: "R-LITCHAIN", NeedSSA: true,
+	Doc: "wherever the executor reads the value of a numeric literal node (IntegerNode.Int, NumericNode.Float), either the same node is handed to the continuation in that function (the dispatcher's literal arms), or the node can have no accessor chain in any call context (its grammar slot only admits bare literals, as for method arguments): `$[(-1).abs()]` must not be read as `$[-1]`",
+	Run: func(p *Prog) *RuleOut {
+		out := newOut("R-LITCHAIN")
+		e, err := p.exhEngine()
+		if err != nil {
+			out.undecided("engine", "-", "", err.Error())
+			return out
+		}
+		n := 0
+		ord := ordinals{}
+		for _, fn := range p.execFuncs() {
+			for _, b := range fn.Blocks {
+				for _, ins := range b.Instrs {
+					c, ok := ins.(*ssa.Call)
+					if !ok || c.Call.StaticCallee() == nil || fnPkgPath(c.Call.StaticCallee()) != pkgAST || len(c.Call.Args) != 1 {
+						continue
+					}
+					sc := c.Call.StaticCallee()
+					if !(sc.Name() == "Int" || sc.Name() == "Float") || sc.Signature.Recv() == nil {
+						continue
+					}
+					rn := namedOf(sc.Signature.Recv().Type())
+					if rn == nil || !(rn.Obj().Name() == "IntegerNode" || rn.Obj().Name() == "NumericNode") {
+						continue
+					}
+					n++
+					recv := c.Call.Args[0]
+					key := fmt.Sprintf("%s reads the value of a %s #%d", fnName(fn), rn.Obj().Name(), ord.next(fnName(fn)))
+					// (a) the same node goes to the continuation in this function
+					handled := false
+					for _, c2 := range p.allCalls(fn) {
+						if sig := calleeSig(c2); sig == nil || p.pairKind(sig) != "status" {
+							continue
+						}
+						for _, a := range c2.Call.Args {
+							if sameNodeValue(a, recv) {
+								handled = true
+							}
+						}
+					}
+					if handled {
+						out.ok(key, p.pos(c.Pos()), fnName(fn), "the node itself is handed to the continuation, which evaluates its chain")
+						continue
+					}
+					// (b) no call context gives the node a chain
+					bad := ""
+					ctxs := e.contexts(fn, e.depthCap)
+					for _, cx := range ctxs {
+						if !e.feasible(b, cx) {
+							continue
+						}
+						av := e.evalAt(recv, cx, b)
+						if av.Top || av.kind != "shapes" {
+							bad = "its shape is unknown in the context " + cx.desc
+							break
+						}
+						for _, s := range av.Shapes {
+							if !s.Nil && s.Next {
+								bad = "in the context " + cx.desc + " it can be " + p.shapeString(s)
+							}
+						}
+					}
+					if bad == "" {
+						out.ok(key, p.pos(c.Pos()), fnName(fn), fmt.Sprintf("a bare literal in all %d call contexts (grammar slot admits no accessor chain)", len(ctxs)))
+					} else {
+						out.viol(key, p.pos(c.Pos()), fnName(fn), "the literal's value is used although the node can head an accessor chain ("+bad+"): the chain is silently ignored")
+					}
+				}
+			}
+		}
+		out.Counts["literal_value_reads"] = n
+		out.Floors["literal_value_reads"] = 3
+		return out
+	},
+}
+
+// sameNodeValue: a and b are the same node seen through assertions and
+// conversions (both derive from one value).
+func sameNodeValue(a, b ssa.Value) bool {
+	root := func(v ssa.Value) ssa.Value {
+		for i := 0; i < 8; i++ {
+			switch x := v.(type) {
+			case *ssa.TypeAssert:
+				v = x.X
+			case *ssa.Extract:
+				if ta, ok := x.Tuple.(*ssa.TypeAssert); ok && x.Index == 0 {
+					v = ta.X
+				} else {
+					return v
+				}
+			case *ssa.ChangeInterface:
+				v = x.X
+			case *ssa.MakeInterface:
+				v = x.X
+			case *ssa.ChangeType:
+				v = x.X
+			default:
+				return v
+			}
+		}
+		return v
+	}
+	return root(a) == root(b)
+}
+
+func init() { register(ruleLitChain) }
